@@ -130,6 +130,7 @@ var tyPkgs = []string{"k8s.io/api/core/v1", "k8s.io/apimachinery/pkg/apis/meta/v
 var tyNames = []string{"Foo", "Bar", "foo", "T", "Pod", "ObjectMeta", "x1", "Type_A", "S"}
 
 type TyOpts struct {
+	Pkgs       []string // nil: tyPkgs
 	Depth      int
 	Interfaces bool // interface literals with methods
 	Funcs      bool
@@ -140,7 +141,11 @@ func (g *Gen) tyGen(o TyOpts, depth int) *TNode {
 		if g.Chance(0.45) {
 			return &TNode{Kind: "builtin", Nm: g.Pick(tyBuiltins)}
 		}
-		return &TNode{Kind: "named", Pkg: g.Pick(tyPkgs), Nm: g.Pick(tyNames)}
+		pk := tyPkgs
+		if o.Pkgs != nil {
+			pk = o.Pkgs
+		}
+		return &TNode{Kind: "named", Pkg: g.Pick(pk), Nm: g.Pick(tyNames)}
 	}
 	sub := func() *TNode { return g.tyGen(o, depth+1) }
 	for {
